@@ -16,8 +16,12 @@ type handler struct{}
 
 func ok() *base.Response { return &base.Response{StatusCode: base.StatusOK} }
 
-func (handler) OnAnnounce(*gortsplib.ServerHandlerOnAnnounceCtx) (*base.Response, error) { return ok(), nil }
-func (handler) OnRecord(*gortsplib.ServerHandlerOnRecordCtx) (*base.Response, error)     { return ok(), nil }
+func (handler) OnAnnounce(*gortsplib.ServerHandlerOnAnnounceCtx) (*base.Response, error) {
+	return ok(), nil
+}
+func (handler) OnRecord(*gortsplib.ServerHandlerOnRecordCtx) (*base.Response, error) {
+	return ok(), nil
+}
 func (handler) OnSetup(c *gortsplib.ServerHandlerOnSetupCtx) (*base.Response, *gortsplib.ServerStream, error) {
 	return ok(), nil, nil
 }
